@@ -1,3 +1,4 @@
 SPECIFICATION Spec
+CONSTANT AllMembers = FALSE
 INVARIANT F17Exists
 CHECK_DEADLOCK FALSE
